@@ -50,6 +50,7 @@ type Prog struct {
 	// Overlay: the files of the rename-normalised view (nil when nothing was renamed); CanonNotes says what was renamed.
 	Overlay    map[string][]byte
 	CanonNotes []string
+	packCache  map[string]*Ctx
 	funcDecls  map[*types.Func]*ast.FuncDecl
 	declPkg    map[*types.Func]*packages.Package
 }
